@@ -229,7 +229,7 @@ type c12Worst struct {
 }
 
 var (
-	c12Mu    sync.Mutex
+	c12Mu     sync.Mutex
 	c12Worsts = map[string]*c12Worst{}
 	c12Hist   = map[string]int{}
 )
